@@ -28,6 +28,8 @@ def accepted_args(rel):
                     if not (isinstance(e, ast.Constant) and isinstance(e.value, str)):
                         raise TranslatorError(f'{rel}: non-literal in self.arg membership test')
                     vals.append(e.value)
+            elif isinstance(op, (ast.Is, ast.IsNot)) and isinstance(cmp, ast.Constant) and cmp.value is None:
+                pass      # a test for "no argument at all": names no string argument
             else:
                 raise TranslatorError(f'{rel}: unrecognised test on self.arg')
     out = []
@@ -149,6 +151,8 @@ def generate():
             raise TranslatorError(f'no accepted arguments found for {k}')
     out.append('Definition py_args : list (string * list string) := ' + coq_list(
         ['(%s, %s)' % (coq_string(k), coq_list([coq_string(x) for x in v])) for k, v in args.items()]) + '.')
+    # lines.py: the strings the pass itself singles out (no formatter for "None", ...); every other argument goes to topformflat
+    out.append('Definition lines_literals : list string := ' + coq_list([coq_string(x) for x in accepted_args('cvise/passes/lines.py')]) + '.')
     zl = lambda l: coq_list([f'({x})%Z' for x in l], 'Z')
     out.append('Definition py_clang_stop : list Z := ' + zl(stop_codes('cvise/passes/clang.py')) + '.')
     out.append('Definition py_clangbin_stop : list Z := ' + zl(stop_codes('cvise/passes/clangbinarysearch.py')) + '.')
